@@ -48,11 +48,11 @@ def run(res, f, tier):
     samples = []
     for kind in sorted(spec):
         fns = t["op_of_kind"].get(kind, [])
-        if len(fns) != 1:
-            res.violation("C02|dispatch|%s" % kind, "node kind %s is not dispatched to exactly one operator function: %s" % (kind, fns))
+        if not fns:
+            res.violation("C02|dispatch|%s" % kind, "node kind %s is not dispatched to an operator function" % kind)
             continue
-        cells = t["cells"][fns[0]]
-        for combo, outs in sorted(cells.items()):
+        for fn0, (combo, outs) in ((fn_, it_) for fn_ in fns for it_ in sorted(t["cells"][fn_].items())):
+            fns = [fn0]
             ncells += 1
             key = ",".join(combo)
             actual = cell_outcomes(outs)
